@@ -15,6 +15,7 @@ oracle:      the property stated directly on the real code: half-open interval c
 from __future__ import annotations
 
 import copy
+import os
 import json
 from datetime import datetime, timedelta
 
@@ -871,6 +872,7 @@ def run(ctx: Ctx):
         ctx.traces += len(case["queries"])
         ctx.count("queries", len(case["queries"]))
     parsed_files(ctx, drv, mods)
+    sinex_text_cases(ctx, drv, mods)
 
 
 def parsed_files(ctx, drv, mods):
@@ -906,6 +908,168 @@ def parsed_files(ctx, drv, mods):
         check_case(ctx, drv, mods, case, ctx.rng, given=data)
         ctx.traces += len(queries)
         ctx.count("queries", len(queries))
+
+
+# ------------------------------------------------------------------------------------------------
+# end to end: generated SINEX text -> sinex_site parser -> site_info modules
+
+
+def snx_epoch_rule(yy, doy, sod):
+    """the SINEX rule for an epoch `YY:DDD:SSSSS` (SINEX 2.02, 1.4/1.5): `00:000:00000` is an open epoch; YY > 50 is the
+    year 19YY, else 20YY; a day of year 000 stands for day 001"""
+    if (yy, doy, sod) == (0, 0, 0):
+        return None
+    return datetime(1900 + yy if yy > 50 else 2000 + yy, 1, 1) + timedelta(days=max(doy, 1) - 1, seconds=sod)
+
+
+def snx_print(ep):
+    return "%02d:%03d:%05d" % ep
+
+
+def gen_snx_boundaries(rng, n):
+    """n + 1 printed epochs, strictly increasing by the SINEX rule, rich in day-of-year 000 / 001 / last second of a year,
+    around the 50/51 pivot of the two-digit year; pairs (end of interval i, start of interval i + 1)"""
+    year = rng.choice([1951, 1951, 1994, 1998, 1999, 2000, 2003, 2019, 2044, 2048])
+    t = None
+    out = []  # (start epoch, end epoch) per interval
+    start = None
+    for i in range(n + 1):
+        form = rng.choice(["doy000", "doy000", "doy001", "yearend", "random", "random"])
+        if t is not None and year > 2050:
+            break
+        yy = year % 100
+        leap = year % 4 == 0 and (year % 100 != 0 or year % 400 == 0)
+        if form == "doy000":
+            ep = (yy, 0, rng.choice([0, 0, 0, 43200]))
+        elif form == "doy001":
+            ep = (yy, 1, rng.choice([0, 0, 1]))
+        elif form == "yearend":
+            ep = (yy, 366 if leap else 365, rng.choice([86399, 86399, 86370]))
+        else:
+            ep = (yy, rng.randint(2, 364), rng.choice([0, 32400, rng.randint(0, 86399)]))
+        inst = snx_epoch_rule(*ep)
+        if inst is None or (t is not None and inst <= t):
+            year += 1
+            continue
+        if start is not None:
+            out.append((start, ep))
+        # the next interval starts where this one ends, or after a gap (typically: last second of the year / day 000 of the next)
+        if form == "yearend" and rng.random() < 0.8 and year < 2050:
+            year += 1
+            nxt = ((year % 100), rng.choice([0, 0, 1]), 0)
+            start, t = nxt, snx_epoch_rule(*nxt)
+        else:
+            start, t = ep, inst
+            year += rng.choice([0, 0, 1, 1, 2, 5])
+    return out
+
+
+def gen_snx_text_case(rng):
+    """a SINEX text with SITE/ID and SITE/RECEIVER / ANTENNA / ECCENTRICITY histories for 1-2 stations, the abstract
+    source the printed epochs stand for by the SINEX rules, and the records in file order (for planting the tags)"""
+    tag = Tags()
+    names = rng.sample(["osls", "trds", "nyal", "brux"], rng.randint(1, 2))
+    lines = {"SITE/ID": [], "SITE/RECEIVER": [], "SITE/ANTENNA": [], "SITE/ECCENTRICITY": []}
+    source, order = [], {}
+    for nm in names:
+        code = nm if rng.random() < 0.5 else nm.upper()
+        lines["SITE/ID"].append(f" {code}  A 10307M001 P {'Somewhere, Norway':<22} 10 22  3.5  59 44 11.6   221.0")
+        st = {"key": code, "sid": tag(), "epochs": None, "est": None}
+        for b, blk in (("rcv", "SITE/RECEIVER"), ("ant", "SITE/ANTENNA"), ("ecc", "SITE/ECCENTRICITY")):
+            ivs = gen_snx_boundaries(rng, rng.randint(1, 4))
+            if ivs and rng.random() < 0.3:
+                ivs[0] = ((0, 0, 0), ivs[0][1])  # open start
+            if ivs and rng.random() < 0.4:
+                ivs[-1] = (ivs[-1][0], (0, 0, 0))  # open end
+            rows = []
+            for j, (a, e) in enumerate(ivs):
+                head = f" {code}  A ---- P {snx_print(a)} {snx_print(e)} "
+                if b == "rcv":
+                    lines[blk].append(head + f"{'TRIMBLE NETR9':<20} S{j:04d} {'5.45':<11}")
+                elif b == "ant":
+                    lines[blk].append(head + f"{'ASH701945E_M    NONE':<20} A{j:04d}")
+                else:
+                    lines[blk].append(head + "UNE %8.4f %8.4f %8.4f" % (0.0001 * (j + 1), 0.001, 0.0))
+                sa, se = snx_epoch_rule(*a), snx_epoch_rule(*e)
+                rows.append([None if sa is None else us_of(sa), None if se is None else us_of(se), tag()])
+            st[b] = rows
+        source.append(st)
+    text = "%=SNX 2.01 IGS 20:316:15732 IGS 00:000:00000 00:000:00000 P 00000 0\n"
+    for blk, ls in lines.items():
+        text += f"+{blk}\n" + "".join(l + "\n" for l in ls) + f"-{blk}\n"
+    return text + "%ENDSNX\n", source
+
+
+def sinex_text_cases(ctx, drv, mods):
+    """generated SINEX text through the real `sinex_site` parser into the site_info modules: the histories the modules
+    answer from are those the *printed* epochs stand for by the SINEX rules (day of year 000 = 001, two-digit years around
+    the 50/51 pivot, 00:000:00000 open), asked within a day and a second of every boundary"""
+    import tempfile
+
+    from midgard import parsers
+
+    rng = ctx.rng
+    tmp = tempfile.mkdtemp(prefix="c18-snx-")
+    try:
+        for n in range(ctx.budget(60, 800)):
+            text, source = gen_snx_text_case(rng)
+            path = os.path.join(tmp, f"g{n}.snx")
+            with open(path, "w") as fid:
+                fid.write(text)
+            try:
+                data = parsers.parse_file(parser_name="sinex_site", file_path=path).as_dict()
+            except Exception as exn:  # noqa: BLE001
+                ctx.violate(f"sinex-text:parser-raises:{type(exn).__name__}", f"sinex_site raised {type(exn).__name__}: {exn}", {"text": text})
+                continue
+            # plant the tags: the parser keeps the records of a block in file order
+            ok = True
+            for st in source:
+                d = data.get(st["key"]) or data.get(st["key"].lower()) or data.get(st["key"].upper())
+                if d is None:
+                    ok = False
+                    break
+                d.get("site_id", {})["_tag"] = st["sid"]
+                for b, blk in (("rcv", "site_receiver"), ("ant", "site_antenna"), ("ecc", "site_eccentricity")):
+                    recs = d.get(blk, [])
+                    if blk not in d and not st[b]:
+                        st[b] = None  # no line of the block names the station: the block is absent for it
+                        continue
+                    if len(recs) != len(st[b]):
+                        ok = False
+                        continue
+                    for rec, row in zip(recs, st[b]):
+                        rec["_tag"] = row[2]
+                st["key"] = next(k for k in data if k.lower() == st["key"].lower())
+            if not ok:
+                ctx.violate("sinex-text:records-lost", "the parsed dictionary does not hold the records of the text", {"text": text})
+                continue
+            queries = []
+            for st in source:
+                bounds = sorted({x for b in ("rcv", "ant", "ecc") for r in (st[b] or []) for x in r[:2] if x is not None})
+                dates = sorted({min(max(x + d_, 0), DMAX) for x in bounds
+                                for d_ in (0, 10**6, -(10**6), 86400 * 10**6, -86400 * 10**6, 43200 * 10**6, -43200 * 10**6)})
+                if not ctx.thorough:
+                    dates = dates[:: max(1, len(dates) // 16)]
+                for mod in ("receiver", "antenna", "eccentricity", "all"):
+                    for d_ in (dates if mod != "all" else dates[::3]) + ["last"]:
+                        queries.append({"mod": mod, "op": "get", "stations": {"form": "list", "value": [st["key"].upper()]}, "date": d_})
+                queries.append({"mod": "all", "op": "hist", "stations": {"form": "text", "value": st["key"]}, "date": None})
+            case = {"kind": "snx", "source": source, "queries": queries, "label": "sinex-text", "text": text}
+            ctx.case({"digest": common.digest(text), "sinex-text": [st["key"] for st in source]})
+            ctx.count("sinex-text")
+            for feat, pat in (("doy000", "(?<!00):000:"), ("doy001", ":001:"), ("yearend", ":86399"), ("open", "00:000:00000"),
+                              ("year>50", " 5[1-9]:| [6-9]\\d:"), ("year<=50", " [0-4]\\d:| 50:")):
+                import re as _re
+
+                if _re.search(pat, text.split("+SITE/RECEIVER")[1]):
+                    ctx.count("sinex-text:" + feat)
+            check_case(ctx, drv, mods, case, None, given=data)
+            ctx.traces += len(queries)
+            ctx.count("queries", len(queries))
+    finally:
+        import shutil
+
+        shutil.rmtree(tmp, ignore_errors=True)
 
 
 def abstract_and_tag(kind, data):
@@ -952,7 +1116,24 @@ def replay(payload):
     mods = _mods()
     import random
 
-    rep = check_case(None, None, mods, case, random.Random(0))
+    given = None
+    if case.get("text"):  # a generated SINEX text: through the real parser again, tags planted in file order
+        import tempfile
+
+        from midgard import parsers
+
+        with tempfile.TemporaryDirectory() as tmp:
+            path = os.path.join(tmp, "replay.snx")
+            with open(path, "w") as fid:
+                fid.write(case["text"])
+            given = parsers.parse_file(parser_name="sinex_site", file_path=path).as_dict()
+        for st in case["source"]:
+            d = given[st["key"]]
+            d.get("site_id", {})["_tag"] = st["sid"]
+            for b, blk in (("rcv", "site_receiver"), ("ant", "site_antenna"), ("ecc", "site_eccentricity")):
+                for rec, row in zip(d.get(blk, []), st[b] or []):
+                    rec["_tag"] = row[2]
+    rep = check_case(None, None, mods, case, None if given is not None else random.Random(0), given=given)
     want = payload.get("key")
     hits = [h for h in rep.hits if want is None or h[0] == want]
     print(f"case: kind={case['kind']} stations={[s['key'] for s in case['source']]} queries={len(case['queries'])}")
